@@ -425,7 +425,7 @@ def run_alloc_engine(ctx, spec):
     s = json.load(open(os.path.join(out, "summary.json")))
     bad = []
     for sh_ in s["shards"]:
-        p = subprocess.run(["timeout", "1200", "coqc", "-Q", COQ, "ColumnV", sh_], cwd=out, stdout=subprocess.PIPE, stderr=subprocess.STDOUT, text=True)
+        p = subprocess.run(["timeout", "1200", "coqc", "-Q", COQ, "ColumnV", sh_], cwd=out, stdout=subprocess.PIPE, stderr=subprocess.STDOUT, text=True, preexec_fn=vlib.big_stack)
         m = re.search(r"M\s*=\s*\[(.*?)\]\s*:\s*list", p.stdout, re.S)
         if p.returncode != 0 or not m:
             ctx.violation("correspondence", "Alloc.v could not be evaluated on the recorded allocator cases: " + p.stdout[-1500:], found_input=False)
@@ -523,7 +523,8 @@ def run_codec_engine(ctx, spec):
     s = json.load(open(os.path.join(out, "summary.json")))
 
     def ev(path):
-        p = subprocess.run(["timeout", "2400", "coqc", "-Q", COQ, "ColumnV", path], cwd=out, stdout=subprocess.PIPE, stderr=subprocess.STDOUT, text=True)
+        p = subprocess.run(["timeout", "2400", "coqc", "-Q", COQ, "ColumnV", path], cwd=out, stdout=subprocess.PIPE, stderr=subprocess.STDOUT, text=True,
+                           preexec_fn=vlib.big_stack)
         m = re.search(r"M\s*=\s*(.*?)\n\s*:\s*list", p.stdout, re.S)
         if p.returncode != 0 or not m:
             return None, p.stdout[-1500:]
@@ -599,7 +600,7 @@ def run_sched_engine(ctx, spec):
     if spec.get("locks", True) and s.get("trace_files"):
         origin = json.load(open(os.path.join(out, "lock_origin.json")))
         for tf in s["trace_files"]:
-            p = subprocess.run(["timeout", "1200", "coqc", "-Q", COQ, "ColumnV", tf], cwd=out, stdout=subprocess.PIPE, stderr=subprocess.STDOUT, text=True)
+            p = subprocess.run(["timeout", "1200", "coqc", "-Q", COQ, "ColumnV", tf], cwd=out, stdout=subprocess.PIPE, stderr=subprocess.STDOUT, text=True, preexec_fn=vlib.big_stack)
             m = re.search(r"M\s*=\s*(.*?)\n\s*:\s*list", p.stdout, re.S)
             if p.returncode != 0 or not m:
                 ctx.violation("correspondence", "Conc.v lock_check_all could not be evaluated on the recorded schedules: " + p.stdout[-1500:], found_input=False)
@@ -644,7 +645,7 @@ def run_persist_engine(ctx, spec):
         ctx.violation(kind, f, data={"engine": kind, "seed": ctx.seed, "failure": f})
     sc = os.path.join(out, "snap_cases.v")
     if os.path.exists(sc):
-        p = subprocess.run(["timeout", "600", "coqc", "-Q", COQ, "ColumnV", sc], cwd=out, stdout=subprocess.PIPE, stderr=subprocess.STDOUT, text=True)
+        p = subprocess.run(["timeout", "600", "coqc", "-Q", COQ, "ColumnV", sc], cwd=out, stdout=subprocess.PIPE, stderr=subprocess.STDOUT, text=True, preexec_fn=vlib.big_stack)
         m = re.search(r"M\s*=\s*\[(.*?)\]\s*:\s*list", p.stdout, re.S)
         if p.returncode != 0 or not m:
             ctx.violation("correspondence", "Snap.v could not be evaluated on the recorded fault plans: " + p.stdout[-1200:], found_input=False)
@@ -679,7 +680,7 @@ def run_bitmap_engine(ctx, spec):
     s = json.load(open(os.path.join(out, "summary.json")))
     bad = []
     for sh_ in s["shards"]:
-        p = subprocess.run(["timeout", "1200", "coqc", "-Q", COQ, "ColumnV", sh_], cwd=out, stdout=subprocess.PIPE, stderr=subprocess.STDOUT, text=True)
+        p = subprocess.run(["timeout", "1200", "coqc", "-Q", COQ, "ColumnV", sh_], cwd=out, stdout=subprocess.PIPE, stderr=subprocess.STDOUT, text=True, preexec_fn=vlib.big_stack)
         m = re.search(r"M\s*=\s*\[(.*?)\]\s*:\s*list", p.stdout, re.S)
         if p.returncode != 0 or not m:
             ctx.violation("correspondence", "Bitmap.v could not be evaluated on the recorded windows: " + p.stdout[-1200:], found_input=False)
@@ -708,7 +709,7 @@ def run_wire_engine(ctx, spec):
     s = json.load(open(os.path.join(out, "summary.json")))
     bad = []
     for sh_ in s["shards"]:
-        p = subprocess.run(["timeout", "1200", "coqc", "-Q", COQ, "ColumnV", sh_], cwd=out, stdout=subprocess.PIPE, stderr=subprocess.STDOUT, text=True)
+        p = subprocess.run(["timeout", "1200", "coqc", "-Q", COQ, "ColumnV", sh_], cwd=out, stdout=subprocess.PIPE, stderr=subprocess.STDOUT, text=True, preexec_fn=vlib.big_stack)
         m = re.search(r"M\s*=\s*(.*?)\n\s*:\s*list", p.stdout, re.S)
         if p.returncode != 0 or not m:
             ctx.violation("correspondence", "WireCommit.v could not be evaluated on the recorded commits: " + p.stdout[-1200:], found_input=False)
